@@ -703,6 +703,14 @@ func TestC15Sites(t *testing.T) {
 			return ""
 		}), slot("embedded field doc of immutable struct", never))
 		want = append(want, "immutable B")
+		// one field declaration with several names: its doc comment documents every one of them
+		if mn := slot("doc of a field declaration with several names", never); mn != "" {
+			w("// @immutable\ntype B2 struct {\n\t%s\n\tP, Q, R int\n}\n\n", mn)
+			want = append(want, "immutable B2")
+			if mn == "// @mutable" {
+				want = append(want, "mutable B2.P", "mutable B2.Q", "mutable B2.R")
+			}
+		}
 		// detached
 		if l := slot("detached from type by blank line", never); l != "" {
 			w("%s\n\n", l)
